@@ -63,7 +63,7 @@ def load_table(ctx):
     return _TABLE
 
 
-def operands(ctx, kinds):
+def operands(ctx, kinds, modes):
     """[(spec, shape, layout)] : catalogue x accepted layouts, hosted operands, repository inputs."""
     from harness import c19_coerce as H
     from harness.proj import Tables
@@ -91,6 +91,8 @@ def operands(ctx, kinds):
     for pm, src in H.repo_inputs():
         if (pm, src) in seen or 'f"' in src or "f'" in src:
             continue
+        if pm not in modes:   # operands are built with the documented modes only ('_expr_arglikes' makes a Tuple that
+            continue          # spans its whole source / has no comma: not a tree the Tuple mode itself would give)
         try:
             if FST(src, pm).a.__class__.__name__ not in kinds:   # expr_context operands are outside the matrix
                 continue
@@ -103,7 +105,7 @@ def operands(ctx, kinds):
 def build_cases(ctx, table):
     rng = random.Random(ctx.seed * 7919 + 19)
     kinds = sorted(table['kinds'])
-    base, variants, hosted, repo = operands(ctx, set(kinds))
+    base, variants, hosted, repo = operands(ctx, set(kinds), {m['mode'] for m in table['modes']})
     named = sorted(m['mode'] for m in table['modes'] if m['cat'] == m['mode'])   # the literals of parsex.Mode
     classm = [k for k in kinds if k not in named]
     cases = []
